@@ -9,6 +9,7 @@ import VerdeModel.Model.Grid
 import VerdeModel.Model.CV
 import VerdeModel.Model.Score
 import VerdeModel.Model.Gridder
+import VerdeModel.Model.LinAlg
 namespace Verde
 open Val
 
@@ -274,8 +275,40 @@ def opsGridder (op : String) (a : List Val) : Option Val :=
         (← projOpt (← a[6]?)) (← argAt (Option (String × String)) a 7) (← argAt (Option (List String)) a 8)))
   | _ => none
 
+def opsLinAlg (op : String) (a : List Val) : Option Val :=
+  match op with
+  | "lstsq" => do
+      let J ← argAt Mat a 0
+      let d ← argAt Vec a 1
+      let w ← argAt (Option Vec) a 2
+      let damping ← argAt (Option Rat) a 3
+      let n ← argAt Nat a 4
+      let ws := w.getD (d.map fun _ => 1)
+      let s := (List.range n).map (colScale2 J)
+      match leastSquares J d w damping n with
+      | none => pure (.atom "singular")
+      | some p => pure (toVal (p, normalEqHolds J d ws (damping.getD 0) s p n))
+  | "trend_fit" => do
+      let es ← argAt Vec a 0
+      let ns ← argAt Vec a 1
+      let d ← argAt Vec a 2
+      let w ← argAt (Option Vec) a 3
+      let deg ← argAt Nat a 4
+      let qe ← argAt Vec a 5
+      let qn ← argAt Vec a 6
+      match trendFit es ns d w deg with
+      | none => pure (.atom "singular")
+      | some c => pure (toVal (c, (qe.zip qn).map fun (x, y) => trendPredict c deg x y))
+  | "trend_predict" => do
+      let c ← argAt Vec a 0
+      let deg ← argAt Nat a 1
+      pure (toVal (((← argAt Vec a 2).zip (← argAt Vec a 3)).map fun (x, y) => trendPredict c deg x y))
+  | "power_comb" => do
+      pure (toVal ((powerCombinations (← argAt Nat a 0)).map fun (i, j) => [i, j]))
+  | _ => none
+
 def dispatchers : List (String → List Val → Option Val) :=
-  [opsCoords, opsBlocks, opsWindows, opsGrid, opsCV, opsScore, opsGridder]
+  [opsCoords, opsBlocks, opsWindows, opsGrid, opsCV, opsScore, opsGridder, opsLinAlg]
 
 def runLine (line : String) : String :=
   match Val.parseLine line with
